@@ -350,9 +350,9 @@ impl Property for C13 {
     }
     fn plan(&self, tier: Tier) -> Vec<Segment> {
         vec![
-            Segment::random("AtomicBitFieldVec", tier.pick(130, 4_000), &[0], 16, 40),
-            Segment::random("AtomicBitVec", tier.pick(60, 2_000), &[1], 16, 40),
-            Segment::random("EliasFanoConcurrentBuilder", tier.pick(40, 1_000), &[2], 16, 40),
+            Segment::random("AtomicBitFieldVec", tier.pick(130, 1_200), &[0], 16, 40),
+            Segment::random("AtomicBitVec", tier.pick(60, 600), &[1], 16, 40),
+            Segment::random("EliasFanoConcurrentBuilder", tier.pick(40, 300), &[2], 16, 40),
             Segment::random("stress", tier.pick(8, 64), &[3], 8, 16),
         ]
     }
